@@ -117,6 +117,18 @@ func (u *Unit) invoke(st *State, instr ssa.Instruction, cc *ssa.CallCommon, call
 			fs = u.eng.spec.Funcs[fn.Pkg.Pkg.Name()+"."+name]
 		}
 		if fs == nil {
+			// a helper of this package without a contract of its own is verified
+			// as part of its caller (inlined), unless it is recursive
+			target := fn
+			if o := fn.Origin(); o != nil {
+				target = o
+			}
+			if target.Pkg == u.pkg && len(target.Blocks) > 0 && !onStack(st.frame, target) && st.frame.depth < 6 {
+				u.checkAt(st, instr, "call:"+name)
+				u.event(st, name, args)
+				u.autoInlined[name] = true
+				return u.inline(st, target, args, nil)
+			}
 			return u.unknownCall(st, instr, name, sig)
 		}
 		u.checkAt(st, instr, "call:"+name)
@@ -143,6 +155,15 @@ func (u *Unit) invoke(st *State, instr ssa.Instruction, cc *ssa.CallCommon, call
 	}
 	u.unsupportedf("call of %T", callee)
 	return u.unknownCall(st, instr, "?", sig)
+}
+
+func onStack(f *Frame, fn *ssa.Function) bool {
+	for ; f != nil; f = f.parent {
+		if f.fn == fn {
+			return true
+		}
+	}
+	return false
 }
 
 func (u *Unit) inline(st *State, fn *ssa.Function, args []Value, binds []Value) []callRes {
@@ -361,6 +382,10 @@ func labelOr(c *Clause, d string) string {
 func clauseProps(c *Clause, fs *FuncSpec) []string {
 	if len(c.Props) > 0 {
 		return c.Props
+	}
+	// a label of the form [Cnn.xxx] ties the clause to that property alone
+	if l := c.Label; len(l) > 4 && l[0] == 'C' && l[1] >= '0' && l[1] <= '9' && l[2] >= '0' && l[2] <= '9' && l[3] == '.' {
+		return []string{l[:3]}
 	}
 	return nil
 }
